@@ -4,7 +4,7 @@
    [ln1p] (the libm logarithm inside the multi-factor multiplier) is a Section variable whose only
    assumed property, non-negativity on the values it is applied to, stays visible in every statement. *)
 From Coq Require Import Reals Lra.
-From SV Require Import Lib.Base Lib.GenericField Lib.GenericFieldR Gen.TrustConsts Model.Trust Proofs.Trust.
+From SV Require Import Lib.Base Lib.GenericField Lib.GenericFieldR Gen.TrustConsts Model.Trust Proofs.Trust Proofs.TrustStar.
 Local Open Scope R_scope.
 
 (* the numbers the property text relies on, proved from the constants regenerated from
@@ -49,11 +49,11 @@ Definition C11_sybil_seventh_full : Prop := forall pre ops d Sy,
   0 <= d -> st_pre st <> [] -> equal_stats ln1p st -> unvouched st Sy ->
   @mass RF (@global_trust RF ln1p st d) Sy <= pop_share st Sy / 7.
 
-(* Strongest version that holds for the repaired code: the bound holds whenever at least 4 rounds
-   ran OR the set's share is at least 1.05e-3.  What is missing: a network of more than 950 nodes in
-   which the loop leaves through the convergence test after 2 or 3 rounds while the set is a
-   single-digit handful -- there the set can keep up to 0.36 (2 rounds) / 0.216 (3 rounds) of its
-   share (design/C11.md gives the 5000-node example; see C11_side_condition_needed below). *)
+(* It is FALSE for the repaired engine (C11_sybil_seventh_refuted, after the section).
+   Strongest version that holds: the bound holds whenever at least 4 rounds ran OR the set's share is
+   at least 1.05e-3.  What is excluded: a network of more than 950 nodes in which the loop leaves
+   through the convergence test after 2 or 3 rounds while the set is a handful of identities -- there
+   the set keeps up to 0.36 (2 rounds) / 0.216 (3 rounds) of its share, in absolute terms < 1.5e-4. *)
 Theorem C11_sybil_seventh_partial : forall pre ops d Sy,
   let st := reach ln1p pre ops in
   0 <= d -> st_pre st <> [] -> equal_stats ln1p st -> unvouched st Sy ->
@@ -89,6 +89,13 @@ Proof. exact (hist_anchor_floor ln1p ln1p_nonneg). Qed.
 
 End C11.
 
+(* The property as written is refuted over the exact reals: anchor 2, identity 1 rating itself, 4998
+   honest nodes known only through a 0.0 entry, nobody has statistics: the history below reaches it,
+   the loop leaves after two rounds and identity 1 keeps 0.36/5000 > (1/5000)/7. *)
+Theorem C11_sybil_seventh_refuted : forall ln1p : N -> R, (forall x, 0 <= ln1p x) ->
+  ~ C11_sybil_seventh_full ln1p.
+Proof. exact seventh_full_refuted. Qed.
+
 (* ---- the hypotheses are satisfiable: an anchor vouching for an honest node, and a self-rating
    identity nobody vouches for; nobody has statistics ---- *)
 Definition ex_ops : list (op RF) := [UpdLocal 1 2 true; UpdLocal 3 3 true].
@@ -120,9 +127,8 @@ Qed.
    (known only because the anchor once reported a failed interaction with them: a 0.0 entry);
    nobody has statistics.  The SAME generic definition, executed over IEEE binary64: the loop
    leaves through the convergence test after 2 rounds and identity 2 keeps 0.36/5000 > 1/(7*5000).
-   This is an execution of the binary64 instance (and the harness reproduces it on the real engine
-   in the thorough tier), not a theorem over R: C11_sybil_seventh_full is neither proved nor
-   refuted over the reals here. *)
+   This is an execution of the binary64 instance of the configuration used in
+   C11_sybil_seventh_refuted (and the harness reproduces it on the real engine in the thorough tier). *)
 From Coq Require Import PrimFloat.
 Fixpoint Nseq (start : N) (len : nat) : list N :=
   match len with O => [] | S k => start :: Nseq (start + 1) k end.
